@@ -3,6 +3,7 @@ import DadiVerif.Lemmas.Marginal2
 import DadiVerif.Lemmas.Pivots
 import DadiVerif.Lemmas.Marginal3
 import DadiVerif.Lemmas.Positivity
+import DadiVerif.Lemmas.DriverProgram
 /-!
 # C04 — mass leaves only via fixation/loss; frozen marginals exact; frozen+migration rejected
 
@@ -141,6 +142,31 @@ theorem C04_inject_table :
           (d+1, k, unitIdx (d+1) k,
            (if d + 1 == 1 then [] else ["frozen" ++ toString (k+1)]) ++ (if d + 1 == 2 then ["nomut" ++ toString (k+1)] else [])))) := by
   decide
+
+/-- **flags, sizes and steps as every driver passes them** (time loops translated statement by statement; each call bound by NAME
+    against the callee's signature, so a re-ordered signature with a call site left behind shows here): `_inject_mutations_<d>D`
+    receives `this_dt`, θ0 and, for its parameter `frozen<k>` (`nomut<k>` in 2-D), the caller's flag of population k; the sweep along
+    axis k is guarded by `if not frozen<k>` — its own flag —, gets `this_dt` and the size slot of population k; and every parameter
+    (in particular every size) is re-evaluated at `next_t`, so that the same sizes and the same time steps are used whatever the
+    other populations do. -/
+theorem C04_driver_flags :
+    Py.driverPrograms.map (fun P => Prog.flagView (Prog.resolve P)) = Prog.expectedAll.map Prog.flagView := by
+  decide +kernel
+
+/-- …what the statement `inject` then does in the semantics: exactly `injectFn` with those flag lists, i.e. (`C04_inject_table`,
+    `C04_no_influx_frozen_nomut`) no influx into frozen / nomut populations; and a frozen axis is skipped (`C04_frozen_axis_skipped`):
+    one pass through the expected loop body is `sweepFn` with the flags of the environment -/
+theorem C04_driver_pass (grids : List (Array ℚ)) (use : Bool) (eps : ℕ → List ℕ → ℕ → ℚ) (E : Prog.PEnv) (c n : ℚ) (dt : Option ℚ)
+    (td : ℚ) (v : Py.Param → ℚ) (φ : List ℕ → ℚ) :
+    let d := grids.length
+    ((Prog.expectedConstBody d).foldl (Prog.exec (Prog.semFn grids use eps) E) ⟨c, n, dt, td, v, φ⟩).phi
+      = sweepFn grids (Prog.frList d E) (Prog.nmList d E) use eps (Prog.toStep d v) (thisDt dt (E.T - c)) φ := by
+  intro d
+  rw [Prog.constBody_pass, ← Prog.sweepOf_semFn]
+
+/-- non-vacuity: the translated `two_pops` loop passes four flags to the injection -/
+example : (Py.driverPrograms.map Prog.resolve)[1]?.map (fun R => R.body.filterMap
+    (fun s => match s with | .inject i => some (i.frozen.length + i.nomut.length) | _ => none)) = some [4] := by decide +kernel
 
 /-- without migration and selection the first and last interior rows decouple from the boundary values:
     a₁ = 0 and c_{N−2} = 0 (because V(0) = V(1) = 0), for every grid from 0 to 1 -/
